@@ -1144,7 +1144,9 @@ class DAG(nx.DiGraph):
         if isinstance(self, BayesianNetwork):
             bn = self
         else:
-            bn = BayesianNetwork(self.edges())
+            # The edge list alone would drop isolated nodes and the latent set.
+            bn = BayesianNetwork(self.edges(), latents=set(self.latents))
+            bn.add_nodes_from(self.nodes())
 
         if estimator is None:
             estimator = MaximumLikelihoodEstimator
